@@ -3,11 +3,13 @@ CONSTANTS
   Rounds = 2
   FreshQueuePerSolve = FALSE
   N = 3
+  CacheModelByWinner = FALSE
   ExitOnException = FALSE
   DetectAllFailed = TRUE
 INVARIANT Agreement
 INVARIANT RaisesOnlyIfNobodyAnswered
 INVARIANT NoLoserConsumesCtrl
+INVARIANT ModelIsCurrent
 PROPERTY SolveReturns
 PROPERTY AnswerIfSomeoneAnswers
 CHECK_DEADLOCK FALSE
